@@ -231,11 +231,16 @@ static void exercise(const std::string& kind, const std::string& fn, const std::
         for (size_t i = 0; i < kl.size(); i += 3) some.push_back(kl[i]);
         e2.loadData(some);
         for (auto& k : some) (void)e2.get(k);
+        // with the base runs the RESTART record names (refusals of a missing base run are results, not crashes)
+        try { ESmry e3(fn, true); e3.loadData(); (void)e3.dates(); } catch (const std::exception&) {}
     } else if (kind == "esmry") {
-        ExtESmry e(fn);
-        e.loadData();
-        for (auto& k : e.keywordList()) { (void)e.get(k); (void)e.get_unit(k); (void)e.get_at_rstep(k); }
-        (void)e.dates(); (void)e.startdate(); (void)e.numberOfTimeSteps();
+        {
+            ExtESmry e(fn);
+            e.loadData();
+            for (auto& k : e.keywordList()) { (void)e.get(k); (void)e.get_unit(k); (void)e.get_at_rstep(k); }
+            (void)e.dates(); (void)e.startdate(); (void)e.numberOfTimeSteps();
+        }
+        try { ExtESmry e3(fn, true); e3.loadData(); (void)e3.dates(); } catch (const std::exception&) {}
     } else if (kind == "egrid") {
         EGrid g(fn);
         g.load_grid_data();
